@@ -137,10 +137,14 @@ func vfPrefixRender(n *refNode) string {
 
 // vfC15Instantiate fills the binary operator slots (op "?") with arbitrary infix
 // operators and names / types the variable leaves ("_") from their context.
+// vfC15Prefix: how the variable names start (identifiers may begin with a letter of any script or an
+// underscore and may contain dots); set per unit.
+var vfC15Prefix = "x"
+
 func vfC15Instantiate(n *refNode, wantBool bool, counter *int, types map[string]bool) {
 	if n.leaf {
 		if n.atom == "_" {
-			n.atom = "x" + strconv.Itoa(*counter)
+			n.atom = vfC15Prefix + strconv.Itoa(*counter)
 			*counter++
 			types[n.atom] = wantBool
 		}
@@ -176,6 +180,10 @@ func vfC15Instantiate(n *refNode, wantBool bool, counter *int, types map[string]
 func VerifC15(args []string) {
 	tree, ok := refRead(args[0])
 	vfAssert(ok, "harness: template readable by the reference reader")
+	vfC15Prefix = "x"
+	if len(args) > 1 && args[1] != "" {
+		vfC15Prefix = args[1]
+	}
 	counter := 0
 	types := map[string]bool{}
 	vfC15Instantiate(tree, true, &counter, types)
